@@ -392,10 +392,14 @@ def run_check(args):
     for k in known:
         if k.get('status') == 'known' and k['property'] == prop:
             rp = os.path.join(VERIF, k['replay'])
-            with open(rp) as f:
-                doc = json.load(f)
-            r = campaigns.run_any(doc['scenario'])
-            if vkey(r) == (k['oracle'], k['key']):
+            # replayed in a fresh interpreter with the hash seed recorded in
+            # the replay file
+            import subprocess
+            out = subprocess.run(
+                [sys.executable, os.path.join(VERIF, 'bin', 'check_main.py'),
+                 '--replay', rp], capture_output=True, text=True,
+                timeout=300).stdout
+            if 'oracle=%s key=%s ' % (k['oracle'], k['key']) in out:
                 print('KNOWN-FINDING: property=%s %s (%s; also hit %d times '
                       'in this search)' % (prop, k['what'], k['id'],
                                            known_hits.get(k['id'], 0)))
